@@ -5,8 +5,8 @@ use crate::gens::proggen::{Preset, ProgCase};
 use crate::model::diff::Agreed;
 use crate::props::progdiff;
 
-pub const RULE: &str = "cases = generated programs that bind variables and then call for_each / filter / map_values / map_keys over literal and event-derived objects and arrays (0..4 elements) with closure parameters that often reuse the names of those variables; closure bodies succeed, fail on some iteration (typed call on an element of the wrong kind), or `return`; the call sits under `??` so the program continues and reads the variables afterwards; real compiler+runtime vs reference interpreter with save/restore semantics: every variable must hold its pre-call value after the call and parameters that were unset before must be absent from the final runtime state. Non-trivial = a closure failed or returned on some iteration and a parameter shadowed an existing outer variable. Distinct = distinct serialised (program, event) cases.";
-pub const NOTE: &str = "trusts the reference interpreter; replace_with is not in the generator's pool (its closure takes a regex match object); the final runtime state is read through RuntimeState::variable";
+pub const RULE: &str = "cases = generated programs that bind variables and then call for_each / filter / map_values / map_keys over literal and event-derived objects and arrays (0..4 elements), or replace_with over literal and event-derived strings with six small patterns (0..n matches, optional count) with closure parameters that often reuse the names of those variables; closure bodies succeed, fail on some iteration (typed call on an element of the wrong kind), or `return`; the call sits under `??` so the program continues and reads the variables afterwards; real compiler+runtime vs reference interpreter with save/restore semantics: every variable must hold its pre-call value after the call and parameters that were unset before must be absent from the final runtime state. Non-trivial = a closure failed or returned on some iteration and a parameter shadowed an existing outer variable. Distinct = distinct serialised (program, event) cases.";
+pub const NOTE: &str = "trusts the reference interpreter (replace_with is modelled from its documentation with the regex crate); the final runtime state is read through RuntimeState::variable";
 
 fn classify(_case: &ProgCase, a: &Agreed) -> (bool, Vec<&'static str>) {
     let mut c = Vec::new();
